@@ -57,11 +57,25 @@ def splitObs (ws : List String) : List String × String :=
 /-- A judge derived from a machine whose outputs are exactly the property-relevant observables:
     the implementation's output must equal the spec machine's output; `name` labels the violated
     clause by operation. -/
+def splitTokens (s : String) : List String :=
+  (s.splitOn " ").flatMap (fun w => w.splitOn ",")
+
+/-- equal, or equal up to error texts the harness could not classify: an implementation token
+    containing `other(` stands for "some error" and matches any error class of the specification
+    (never `ok`/`pass`, never data) -/
+def looseEq (spec impl : String) : Bool :=
+  spec == impl ||
+  (let st := splitTokens spec
+   let it := splitTokens impl
+   st.length == it.length && (st.zip it).all (fun p =>
+     p.1 == p.2 || ((p.2.splitOn "other(").length > 1 && p.1 != "ok" && p.1 != "pass" && p.1 != "-" && p.1 != ""
+                    && !(p.1.contains '='))))
+
 def judgeOf (m : Machine) (name : List String → String) : Machine :=
   ⟨m.σ, m.init, fun s ws =>
     let (op, obs) := splitObs ws
     let (s', o) := m.step s op
     if o = "bad-op" then (s', "bad-op")
-    else if o = obs then (s', "pass")
+    else if looseEq o obs then (s', "pass")
     else (s', s!"violation {name op} expected {o} got {obs}")⟩
 end Driver
